@@ -342,9 +342,13 @@ func (c *c24Session) verdict(r *vk.Run, label string, detail any, closeFirst int
 	if held {
 		first := s.mux[closeFirst]
 		first.Close()
-		if e := first.InternalError(); e != nil || !isClosedChan(first.Closed()) {
+		if e := first.InternalError(); e != nil {
 			r.Violation(map[string]string{"rule": "explicit-close", "cause": teardownCause(e)},
 				fmt.Sprintf("%s (%s): explicit Close of a healthy multiplexer reports internal error %q", label, s.cfg, errText(e)), witness())
+			held = false
+		} else if !isClosedChan(first.Closed()) {
+			r.Violation(map[string]string{"rule": "explicit-close", "cause": "closed-channel-not-closed"},
+				fmt.Sprintf("%s (%s): Multiplexer.Close returned but the channel returned by Closed() is still open", label, s.cfg), witness())
 			held = false
 		}
 		second := s.mux[1-closeFirst]
@@ -842,6 +846,7 @@ func c24() {
 				cfg.Window, cfg.WBC = win, wbc
 				cfg.Backlog = []int{1, 2}[rng.Intn(2)]
 				cfg.Propagate = rng.Intn(2) == 0
+				cfg.CloseFail = rng.Intn(3) == 0
 				cfg.Procs = 8
 				dcases = append(dcases, dcase{d, cfg})
 			}
@@ -898,6 +903,7 @@ func c24() {
 			cfg := randomCfg(rng)
 			cfg.Procs = procs
 			cfg.Propagate = rng.Intn(2) == 0
+			cfg.CloseFail = rng.Intn(3) == 0
 			prng := rand.New(rand.NewSource(rng.Int63()))
 			fmt.Printf("case program=%d %s\n", idx, cfg)
 			wg.Add(1)
